@@ -209,8 +209,11 @@ def run(ctx):
                 break
             if want:
                 nt += 1
-    # model VM / specification vs implementation on the same programs
+    # model VM / specification vs implementation on the same programs; model regex parser vs the implementation's tree
     report_core_disagreements(ctx, cases, dis)
+    srcs = [c["src"] for c in cases]
+    for i in range(0, len(srcs), 4000):
+        front.compare_front(ctx, srcs[i:i + 4000], ["regex literal"] * len(srcs[i:i + 4000]), impl_prop=False)
     ctx.coverage["evaluations"] = ev
     ctx.coverage["distinct_nontrivial"] = nt
     ctx.coverage["regexes"] = len(meta)
